@@ -5,6 +5,8 @@
 import VarlinkProofs.Lemmas.LifecycleTimeout
 import Varlink.Expected
 import Varlink.Extracted.Skeleton
+import Varlink.Extracted.Code
+import Varlink.ExpectedCode
 namespace Varlink.C15
 open Varlink.Life
 
@@ -186,5 +188,11 @@ example :
         (run w' [.call 1, .clientConnect 0]).map fun w2 =>
           ((w2.calls[1]?).map (fun c => (c.pc, c.ret)), isOpen w2 0, addrInUse w2 0, (w2.conns[0]?).map (·.phase))) =
     some (some (.returned, some .timeout), true, true, some .backlog) := by decide
+
+/-- **Tie to the source**: the declarations of /repo that this property's model transliterates
+    (`Extracted.codeNames_C15`) have, in the current working tree, exactly the fingerprints of the code the
+    model was validated against. Any change to them breaks this obligation; the check then searches the
+    correspondence streams for an input on which the changed code violates the property. -/
+theorem modelled_code_unchanged : Varlink.Extracted.code_C15 = Varlink.ExpectedCode.code_C15 := by decide
 
 end Varlink.C15
